@@ -475,6 +475,7 @@ struct Ctx {
     pool: Pool,
     seeds: BTreeMap<String, Vec<u8>>,
     emitted: std::collections::HashSet<String>,
+    quick: bool,
 }
 
 impl Ctx {
@@ -897,6 +898,10 @@ fn splice_cases(c: &mut Ctx, parser: &str, sid: &str) {
         }
         vals.sort_unstable();
         vals.dedup();
+        if c.quick && seed.len() > 100_000 {
+            // quick tier, very large seed (the 150 KB nested-folder TVFS): three values per field
+            vals = vec![0, mask, actual.wrapping_add(1) & mask];
+        }
         for v in vals {
             if v == actual {
                 continue;
@@ -1211,7 +1216,7 @@ fn main() {
     let args = Args::parse();
     quiet_panics();
     let timeout = Duration::from_secs(if args.thorough() { 20 } else { 10 });
-    let mut c = Ctx { s: Session::new(&args.out), pool: Pool { w: None, timeout, respawns: 0 }, seeds: BTreeMap::new(), emitted: Default::default() };
+    let mut c = Ctx { s: Session::new(&args.out), pool: Pool { w: None, timeout, respawns: 0 }, seeds: BTreeMap::new(), emitted: Default::default(), quick: !args.thorough() };
     c.s.rule = "a case is non-trivial when the parser ran on a seed with at least one edit (field splice, truncation, byte mutation) not run before".into();
     let mut rng = Rng::new(args.seed);
 
